@@ -91,11 +91,20 @@ pub fn sorted_values(rng: &mut Rng, repr: &str, n: usize) -> Vec<i64> {
     let span = hi - lo + 1;
     let n = (n as i128).min(span) as usize;
     let gapless = rng.chance(2, 5);
+    // run structure: mixed lengths, or (1 in 8 of the with-holes ones) nothing but singletons or pairs,
+    // so that the number of holes reaches the number of variants
+    let fixed: Option<usize> = if !gapless && rng.chance(1, 8) {
+        Some(1 + rng.below(2) as usize)
+    } else {
+        None
+    };
     let mut runs: Vec<usize> = Vec::new();
     let mut left = n;
     while left > 0 {
         let c = if gapless {
             left
+        } else if let Some(f) = fixed {
+            left.min(f)
         } else {
             left.min(*rng.pick(&[1usize, 1, 2, 3, 5, 8, 20, 100, 1000]))
         };
@@ -310,9 +319,14 @@ pub fn supported(rng: &mut Rng, ident: &str, allow_huge: bool) -> Decl {
         let id = format!("V{}", pos);
         let mut name = id.clone();
         if renames && rng.chance(1, 4) {
-            let r = *rng.pick(&RENAMES);
-            body.push_str(&format!("#[enum_tools(rename = {})] ", str_lit(r)));
-            name = r.to_string();
+            let r: String = if rng.chance(1, 30) {
+                // a very long name
+                "long_".repeat(60 + rng.below(20) as usize)
+            } else {
+                rng.pick(&RENAMES).to_string()
+            };
+            body.push_str(&format!("#[enum_tools(rename = {})] ", str_lit(&r)));
+            name = r;
         }
         let legal_implicit = match prev {
             None => v == 0,
@@ -331,9 +345,12 @@ pub fn supported(rng: &mut Rng, ident: &str, allow_huge: bool) -> Decl {
     let fs = features(rng, gapless, ascending, names_sorted);
     // split the feature entries over 0..=3 attributes
     let mut attrs: Vec<String> = Vec::new();
+    let one_per_attr = rng.chance(1, 10);
     let mut rest: &[String] = &fs.entries;
     while !rest.is_empty() {
-        let take = if rng.chance(1, 2) {
+        let take = if one_per_attr {
+            1
+        } else if rng.chance(1, 2) {
             rest.len()
         } else {
             1 + rng.below(rest.len() as u64) as usize
